@@ -280,6 +280,22 @@ def scale_terms(tier: str):
     return out
 
 
+# ---------------------------------------------------------------- VANISH
+def vanish_terms(tier: str):
+    """A variable that occurs in the expression but disappears when it is simplified (0 * y, y ** 0, y - y is *not* one:
+    no rule cancels it), under every kind of parent and in particular under the parameterised nodes."""
+    out = []
+    gone = [Mul(C(0), y), Mul(y, C(0)), Pow(y, C(0)), Mul(C(0), Log(y)), NPow(Mul(C(0), y), 2), Mul(C(0), y, y)]
+    for g in gone:
+        inners = [Add(x, g), Mul(x, Add(C(1), g)), Add(g, x), Minus(x, g)]
+        for inner in inners:
+            for p in (lambda u: NPow(u, 3), lambda u: Root(u, 3), lambda u: Exp(u, 2), lambda u: Log(u, 2), lambda u: Exp(u),
+                      lambda u: Sin(u), lambda u: Neg(u), lambda u: Recip(u), lambda u: Mul(u, x), lambda u: Pow(u, C(2.5))):
+                out.append(p(inner))
+            out.append(inner)
+    return out
+
+
 # ---------------------------------------------------------------- TWICE
 def twice_terms(tier: str):
     """Two-argument nodes whose two arguments are the same sub-term (in DAG mode: the same object), and
@@ -311,8 +327,8 @@ def binbin_terms(tier: str):
 
     def mk(tag, a, b):
         return (tag, (a, b)) if tag in M.NARY else (tag, a, b)
-    leaves = [(x, y, z), (x, y, C(2)), (C(2), x, y)] if tier != "thorough" else \
-        [(x, y, z), (x, y, C(2)), (C(2), x, y), (x, x, y), (x, C(-1), y), (y, x, x), (x, C(0.5), x)]
+    leaves = [(x, y, z), (x, y, C(2)), (C(2), x, y), (C(-2), x, y), (x, C(-3), y)] if tier != "thorough" else \
+        [(x, y, z), (x, y, C(2)), (C(2), x, y), (C(-2), x, y), (x, C(-3), y), (x, x, y), (x, C(-1), y), (y, x, x), (x, C(0.5), x)]
     for (t1,), (t2,) in itertools.product(two, repeat=2):
         for a, b, c in leaves:
             out.append(mk(t1, a, mk(t2, b, c)))
